@@ -289,6 +289,9 @@ func queueWorld(rc *RunCtx) {
 		ops = genQOps(rc, w.cfg)
 	}
 	c := w.cfg
+	if rc.GenOnly(c, ops) {
+		return
+	}
 	rc.Sched.Prob = c.YieldProb
 	rc.Sched.Prefixes = c.YieldPrefixes
 	for _, s := range c.Steer {
@@ -398,6 +401,9 @@ func (w *qWorld) exec(op Op) {
 	if op.Burst {
 		w.inBurst = true
 	}
+	if op.Kind != "adv" && op.Kind != "stats" && op.Kind != "restart" {
+		w.burstOps = append(w.burstOps, op)
+	}
 	var completion func()
 	switch op.Kind {
 	case "pub":
@@ -477,6 +483,42 @@ func (w *qWorld) settleIfBurst() {
 
 // afterSettle: checks that need a quiescent server.
 func (w *qWorld) afterSettle() {
+	// administrative operations that ran concurrently with anything else: the
+	// resulting registry state depends on the interleaving, so it is adopted
+	// from /stats (existence and paused flags only; counters become unknown)
+	if len(w.burstOps) >= 2 {
+		for _, o := range w.burstOps {
+			if o.Kind != "admin" {
+				continue
+			}
+			topic := w.topicName(o.A)
+			t := w.topic(topic)
+			t.ExistUnknown = true
+			t.Tainted = true
+			for _, c := range w.chans {
+				if c.Topic == topic {
+					c.Uncertain = true
+				}
+			}
+			w.channel(topic, w.chanName(o.B)).Uncertain = true
+		}
+	}
+	if len(w.burstOps) >= 2 {
+		// ephemeral objects come and go through asynchronous callbacks: after
+		// concurrent operations their existence is adopted from /stats
+		for _, t := range w.topics {
+			if t.Ephemeral {
+				t.ExistUnknown = true
+				t.Tainted = true
+			}
+		}
+		for _, c := range w.chans {
+			if c.Ephemeral || w.topic(c.Topic).Ephemeral {
+				c.Uncertain = true
+			}
+		}
+	}
+	w.burstOps = nil
 	w.resolveUncertain()
 	// RDY outside [0, max] must have been refused with a fatal E_INVALID (C03)
 	for _, co := range w.badRdy {
